@@ -1072,6 +1072,9 @@ func (e *Engine) callRecordNames(cc *ssa.CallCommon, out map[string]bool, depth 
 				}
 			}
 		}
+		if p, ok := cc.Value.(*ssa.Parameter); ok {
+			out[p.Name()] = true
+		}
 		// a function value of unknown origin may be a closure of this function
 		out["*"] = true
 		return
